@@ -3,6 +3,7 @@ import Holpy.C15.Model
 /-
 Line protocol for the C15 model (one s-expression in, one out):
   (solve FUEL CNF VARS RES)     -> (sat ASG) | (unsat CNF PROOFS) | (error KIND)
+  (nolearn FUEL CNF VARS RES)   -> T | F             (the run learns no non-empty clause)
   (issol CNF ASG)               -> T | F
   (resolve C1 C2 NAME)          -> CLAUSE            (canonical order)
   (checktrace CNF N0 PROOFS)    -> T | F
@@ -72,6 +73,10 @@ def handle (line : String) : String :=
       | .unsat c' ps => toString (Sexp.list [.atom "unsat", cnfTo c',
           .list (ps.map fun p => .list [Sexp.ofNat p.1, .list (p.2.map Sexp.ofNat)])])
       | .error e => toString (Sexp.list [.atom "error", .atom (errTo e)])
+    | _, _, _, _ => "bad-op"
+  | some (.list [.atom "nolearn", fuel, cnf, vars, res]) =>
+    match fuel.toNat?, cnfOf cnf, natsOf vars, cnfOf res with
+    | some f, some c, some v, some r => toString (Sexp.ofBool (noLearnRun f c ⟨v, r⟩))
     | _, _, _, _ => "bad-op"
   | some (.list [.atom "issol", cnf, asg]) =>
     match cnfOf cnf, clauseOf asg with
